@@ -441,9 +441,11 @@ impl Hypercore {
 
         let clear_length = (last_byte_range.index + last_byte_range.length) - clear_offset;
 
-        // Clear blocks
-        let info_to_flush = self.block_store.clear(clear_offset, clear_length);
-        self.storage.flush_info(info_to_flush).await?;
+        // Clear blocks, if the hole holds any bytes
+        if clear_length > 0 {
+            let info_to_flush = self.block_store.clear(clear_offset, clear_length);
+            self.storage.flush_info(info_to_flush).await?;
+        }
 
         // Now ready to flush
         if self.should_flush_bitfield_and_tree_and_oplog() {
